@@ -51,12 +51,14 @@ def evaluate(P, binp, cases, tag="main"):
         try:
             t = P.term(c, r)
         except Exception as ex:  # malformed (e.g. over-shrunk) case or unexpected result shape
-            o.rows[c["id"]] = [(0, 4, 0)]
             o.results[c["id"]] = dict(r, _render_error=repr(ex))
             if tag == "main":
-                # an observation of a GENERATED case that cannot be rendered is a defect of the machinery
-                # (or an output outside the modelled vocabulary): never silently "invalid"
-                o.problems.append("case %s: observation cannot be rendered as a Coq term: %r" % (c["id"], ex))
+                # an observation of a GENERATED case that cannot be rendered is an output outside the modelled
+                # vocabulary (or a defect of the machinery): the correspondence fails ON THIS CASE — never silently
+                # "invalid", and reported with the case as the replay
+                o.rows[c["id"]] = [(0, 3, 0)]
+            else:
+                o.rows[c["id"]] = [(0, 4, 0)]     # an over-shrunk candidate
             continue
         terms.append((c["id"], t))
     rows, problems = V.run_coq(P.id, P.coq_imports, P.case_type, terms,
